@@ -105,18 +105,18 @@ type genInfo struct {
 }
 
 type view struct {
-	readerIdle   bool
-	served       bool
-	fedRead      int
-	runs         map[int]*runInfo
-	runOrder     []int
-	gens         []*genInfo
-	cur          map[string]int // id -> generation in the connection's map, as far as the log tells
-	spawned      int
-	asyncDone    int
-	cancelled    bool
-	closeAllIdx  int
-	curMsg       int
+	readerIdle  bool
+	served      bool
+	fedRead     int
+	runs        map[int]*runInfo
+	runOrder    []int
+	gens        []*genInfo
+	cur         map[string]int // id -> generation in the connection's map, as far as the log tells
+	spawned     int
+	asyncDone   int
+	cancelled   bool
+	closeAllIdx int
+	curMsg      int
 }
 
 func analyze(evs []Event) *view {
